@@ -38,7 +38,7 @@ class Ctx:
         self.cov = {'evaluations': 0, 'distinct_nontrivial': 0, 'rule': '', 'samples': []}
         self.assumptions = []
         self._distinct = set()
-        self.replay_dir = os.path.join(VERIF, 'replay', pid)
+        self.replay_dir = os.path.join(os.environ.get('VERIF_REPLAY_DIR') or os.path.join(VERIF, 'replay'), pid)
         self.rng = random.Random(seed)
 
     # ---- coverage accounting -------------------------------------------------------
@@ -120,7 +120,7 @@ class Ctx:
         ev['coverage']['known_findings_reproduced'] = sorted(self.known_hit)
         ev['coverage']['inconclusive'] = self.inconclusive
         ev['coverage']['violation_keys'] = sorted(self.violations)
-        d = os.path.join(VERIF, 'evidence')
+        d = os.environ.get('VERIF_EVIDENCE_DIR') or os.path.join(VERIF, 'evidence')
         os.makedirs(d, exist_ok=True)
         tmp = os.path.join(d, '.%s.json.tmp' % self.pid)
         json.dump(ev, open(tmp, 'w'), indent=1, default=_js)
@@ -148,3 +148,140 @@ def hx(b, n=48):
     if b is None:
         return None
     return bytes(b[:n]).hex() + ('..(%d)' % len(b) if len(b) > n else '')
+
+
+class Shard:
+    """Per-worker accumulator with the same counting interface as Ctx; merged by the parent."""
+    def __init__(self):
+        self.cov = {}
+        self.evals = 0
+        self.hashes = set()
+        self.viol = []
+        self.samples = []
+        self.inconcl = []
+
+    def count(self, key, n=1):
+        self.cov[key] = self.cov.get(key, 0) + n
+
+    def hist(self, name, bucket, n=1):
+        h = self.cov.setdefault(name, {})
+        h[str(bucket)] = h.get(str(bucket), 0) + n
+
+    def evaluated(self, content_key=None, nontrivial=False, n=1):
+        self.evals += n
+        if nontrivial and content_key is not None:
+            if isinstance(content_key, str):
+                content_key = content_key.encode()
+            self.hashes.add(hashlib.blake2b(content_key, digest_size=8).digest())
+
+    def violation(self, key, what, replay=None, ext='bin'):
+        if len(self.viol) < 50:
+            self.viol.append((key, what, replay, ext))
+
+    def sample(self, obj, limit=3):
+        if len(self.samples) < limit:
+            self.samples.append(obj)
+
+    def inconc(self, what):
+        self.inconcl.append(what)
+
+
+def merge_shard(ctx, sh):
+    ctx.cov['evaluations'] += sh.evals
+    ctx.merge_distinct(sh.hashes)
+    for k, v in sh.cov.items():
+        if isinstance(v, dict):
+            h = ctx.cov.setdefault(k, {})
+            for b, n in v.items():
+                h[b] = h.get(b, 0) + n
+        elif k.startswith('hook_max_index_') or k.startswith('max_'):
+            ctx.cov[k] = max(ctx.cov.get(k, 0), v)
+        else:
+            ctx.cov[k] = ctx.cov.get(k, 0) + v
+    for key, what, replay, ext in sh.viol:
+        ctx.violation(key, what, replay, ext)
+    for s in sh.samples:
+        ctx.sample(s)
+    for w in sh.inconcl:
+        ctx.inconc(w)
+
+
+def _shard_entry(args):
+    fn, a = args
+    try:
+        return ('ok', fn(*a))
+    except HarnessFailure as e:
+        return ('harness', str(e))
+    except Exception:
+        return ('harness', traceback.format_exc())
+
+
+def run_shards(ctx, fn, arglist, nproc=16):
+    """fn(*args) -> Shard, each executed in a forked child of the (single-threaded) main thread;
+    results come back as pickle files in the scratch directory and are merged here.
+    (multiprocessing.Pool is avoided on purpose: its helper threads fork replacement workers
+    while the main thread may hold the stdout lock, which deadlocked a child in testing.)"""
+    import pickle
+    from . import build
+    if not arglist:
+        return
+    d = os.path.join(build.scratch_root(), 'shards.%d' % os.getpid())
+    os.makedirs(d, exist_ok=True)
+    pending = list(enumerate(arglist))
+    running = {}
+    failed = None
+
+    def reap(block):
+        nonlocal failed
+        try:
+            pid, st = os.waitpid(-1, 0 if block else os.WNOHANG)
+        except ChildProcessError:
+            return False
+        if pid == 0:
+            return False
+        if pid not in running:
+            return True
+        idx = running.pop(pid)
+        f = os.path.join(d, '%d.pkl' % idx)
+        if st != 0 or not os.path.exists(f):
+            failed = failed or 'shard %d exited with status %d and no result' % (idx, st)
+            return True
+        status, val = pickle.load(open(f, 'rb'))
+        os.unlink(f)
+        if status != 'ok':
+            failed = failed or val[-1500:]
+        else:
+            merge_shard(ctx, val)
+        return True
+
+    while (pending or running) and not failed:
+        while pending and len(running) < nproc and not failed:
+            idx, a = pending.pop(0)
+            sys.stdout.flush()
+            sys.stderr.flush()
+            pid = os.fork()
+            if pid == 0:
+                rc = 0
+                try:
+                    res = _shard_entry((fn, a))
+                    tmp = os.path.join(d, '%d.tmp' % idx)
+                    pickle.dump(res, open(tmp, 'wb'))
+                    os.rename(tmp, os.path.join(d, '%d.pkl' % idx))
+                except BaseException:
+                    traceback.print_exc()
+                    rc = 3
+                finally:
+                    sys.stdout.flush()
+                    sys.stderr.flush()
+                    os._exit(rc)
+            running[pid] = idx
+        if running:
+            reap(True)
+    for pid in list(running):
+        try:
+            os.kill(pid, 9)
+            os.waitpid(pid, 0)
+        except OSError:
+            pass
+    if failed:
+        raise HarnessFailure('worker failed: ' + failed)
